@@ -1073,3 +1073,98 @@ def axis_limit_clamp(ctx, repo):
 
 
 ALL_C08.append(axis_limit_clamp)
+
+
+# ---------------------------------------------------------------------------
+# VS-remap: old -> new variation index maps
+# ---------------------------------------------------------------------------
+def varstore_remap(ctx, repo):
+    ctx.rule("VS-remap", "VarStore_subset_varidxes: the map from old to new variation indices packs the OLD (outer, inner) pair on the key side and the positions in the NEW VarData / Item lists on the value side; no variable of the key reappears in the value (an old outer index in the value points at a dropped or shifted VarData)", floor=2)
+    mod = repo.mod("varLib/varStore.py")
+    f = mod.func("VarStore_subset_varidxes")
+
+    def packed(e):
+        return isinstance(e, ast.BinOp) and isinstance(e.op, (ast.Add, ast.BitOr)) and isinstance(e.left, ast.BinOp) and isinstance(e.left.op, ast.LShift) and try_fold(e.left.right) == 16
+
+    n = 0
+    for st in ast.walk(f.node):
+        if isinstance(st, ast.Assign) and isinstance(st.targets[0], ast.Subscript) and packed(st.targets[0].slice) and packed(st.value):
+            n += 1
+            kv = {x.id for x in ast.walk(st.targets[0].slice) if isinstance(x, ast.Name)}
+            vv = {x.id for x in ast.walk(st.value) if isinstance(x, ast.Name)}
+            ok = not (kv & vv)
+            ctx.ob("VS-remap", f.where, norm(st), ok, "" if ok else f"{sorted(kv & vv)} is an old index used on the new side")
+            # each value variable is a length snapshot of a list that is appended to afterwards
+            for v in sorted(vv):
+                d = [s for s in ast.walk(f.node) if isinstance(s, ast.Assign) and norm(s.targets[0]) == v]
+                okd = bool(d) and all(isinstance(s.value, ast.Call) and call_name(s.value) == "len" for s in d)
+                ctx.ob("VS-remap", f.where, f"{v} = {norm(d[0].value) if d else None}", okd, "" if okd else "a new index must be the position the entry takes in the rebuilt list")
+    if n == 0:
+        raise AnalysisError("VS-remap: packed old->new map store not found")
+
+
+ALL_C07.append(varstore_remap)
+ALL_C08.append(varstore_remap)
+
+
+# ---------------------------------------------------------------------------
+# SUB-class0: the two ClassDef helpers of the subsetter agree on what class 0 is
+# ---------------------------------------------------------------------------
+def classdef_class0(ctx, repo):
+    ctx.rule("SUB-class0", "subsetter ClassDef helpers: intersect() reports class 0 exactly when intersect_class(glyphs, 0) would be non-empty (some glyph is not in classDefs), and both list a non-zero class from classDefs restricted to the glyph set", floor=2)
+    mod = repo.mod("subset/__init__.py")
+    fi = next((f for q, f in mod.funcs.items() if f.node.name == "intersect" and any("ClassDef" in norm(d) for d in f.node.decorator_list)), None)
+    fc = next((f for q, f in mod.funcs.items() if f.node.name == "intersect_class" and any("ClassDef" in norm(d) for d in f.node.decorator_list)), None)
+    if fi is None or fc is None:
+        raise AnalysisError("ClassDef.intersect / intersect_class injections not found")
+    # class-0 member filter of intersect_class
+    flt = None
+    for n in ast.walk(fc.node):
+        if isinstance(n, ast.If) and norm(n.test) in ("klass == 0", "0 == klass", "not klass"):
+            for c in ast.walk(n):
+                if isinstance(c, (ast.GeneratorExp, ast.SetComp, ast.ListComp)) and c.generators[0].ifs:
+                    flt = (norm(c.generators[0].target), norm(c.generators[0].ifs[0]), norm(c.generators[0].iter))
+    cond = None
+    for n in ast.walk(fi.node):
+        if isinstance(n, ast.IfExp) and norm(n.body) == "[0]":
+            t = n.test
+            neg = False
+            if isinstance(t, ast.UnaryOp) and isinstance(t.op, ast.Not):
+                neg, t = True, t.operand
+            if isinstance(t, ast.Call) and call_name(t) in ("any", "all") and t.args and isinstance(t.args[0], (ast.GeneratorExp, ast.ListComp)):
+                g = t.args[0]
+                cond = (call_name(t), neg, norm(g.generators[0].target), norm(g.elt), norm(g.generators[0].iter))
+    ok = flt is not None and cond is not None and cond[:2] == ("any", False) and cond[2:] == flt
+    ctx.ob("SUB-class0", fi.where, f"class 0 reported when {cond}; class-0 members are {flt}", ok, "" if ok else "intersect() and intersect_class() disagree on when class 0 occurs: class-0 rule sets are skipped or kept wrongly")
+    lst = [n for n in ast.walk(fi.node) if isinstance(n, ast.ListComp) and "classDefs.items()" in norm(n.generators[0].iter)]
+    ok = bool(lst) and [norm(i) for i in lst[0].generators[0].ifs] == ["g in glyphs"]
+    ctx.ob("SUB-class0", fi.where, f"non-zero classes: {norm(lst[0]) if lst else None}", ok)
+
+
+ALL_C07.append(classdef_class0)
+
+
+def redundant_langsys(ctx, repo):
+    ctx.rule("SUB-langsys", "remove_redundant_langsys deletes a LangSys only when it equals the default: same feature count, same presence of a required feature, and whole FeatureRecords (tag and lookups) compared for the required feature and for every index", floor=4)
+    mod = repo.mod("subset/__init__.py")
+    f = next((fn for q, fn in mod.funcs.items() if fn.node.name == "remove_redundant_langsys"), None)
+    if f is None:
+        raise AnalysisError("remove_redundant_langsys not found")
+    cmps = [n for n in ast.walk(f.node) if isinstance(n, ast.Compare) and len(n.ops) == 1 and isinstance(n.ops[0], ast.NotEq)]
+    recs = [n for n in cmps if "features[" in norm(n)]
+    ok = len(recs) == 2 and all(isinstance(n.left, ast.Subscript) and isinstance(n.comparators[0], ast.Subscript) and norm(n.left.value) == "features" and norm(n.comparators[0].value) == "features" for n in recs)
+    ctx.ob("SUB-langsys", f.where, f"record comparisons: {[norm(n) for n in recs]}", ok, "" if ok else "only a projection of the feature record is compared: a language system with the same tags but other lookups is deleted")
+    sides = sorted(norm(n) for n in recs)
+    ok = any("d.ReqFeatureIndex" in s_ and "l.ReqFeatureIndex" in s_ for s_ in sides) and any("d.FeatureIndex[i]" in s_ and "l.FeatureIndex[i]" in s_ for s_ in sides)
+    ctx.ob("SUB-langsys", f.where, "default and language sides are indexed alike (ReqFeatureIndex; FeatureIndex[i])", ok)
+    ln = [norm(n) for n in cmps if "len(" in norm(n)]
+    ctx.ob("SUB-langsys", f.where, f"feature counts compared: {ln}", ln == ["len(d.FeatureIndex) != len(l.FeatureIndex)"])
+    rq = [norm(n) for n in cmps if "65535" in norm(n)]
+    ok = "(d.ReqFeatureIndex == 65535) != (l.ReqFeatureIndex == 65535)" in rq
+    ctx.ob("SUB-langsys", f.where, f"required-feature presence compared: {rq[:2]}", ok)
+    rm = [c for c in calls_in(f.node) if last_attr(c) == "remove"]
+    ok = bool(rm) and all(isinstance(parent(parent(c)), ast.For) and parent(c) in parent(parent(c)).orelse for c in rm)
+    ctx.ob("SUB-langsys", f.where, "removal happens in the for-else (no index differed)", ok)
+
+
+ALL_C07.append(redundant_langsys)
